@@ -366,6 +366,14 @@ def stepW (w : World) (line : String) : World × String :=
               (w, "cmp " ++ flags (x.canon == y.canon) (rkeyLt x.canon y.canon) (rkeyLt y.canon x.canon) ++ s!" hash={x.canon == y.canon}")
             | _, _ => (w, "cmp incomparable")
     | _, _ => (w, "bad-op")
+  | ["peek", h, _which] =>
+    -- `next(c.rotate())` / `next(c.rotate_pt())`: the first item of an abandoned iteration is the current representation
+    match parseHandle h with
+    | some id =>
+      match w.cstate.lookup id with
+      | some o => (w, "peek " ++ showNames o.seq ++ " / " ++ String.ofList o.sst)
+      | none => (w, "err Fault dead-handle")
+    | none => (w, "bad-op")
   | ["set.turns", h, v] =>
     match parseHandle h, v.toInt? with
     | some id, some v =>
